@@ -4,6 +4,7 @@ import (
 	"context"
 	"crypto/sha256"
 	"encoding/binary"
+	"fmt"
 	"sync"
 	"time"
 
@@ -153,7 +154,7 @@ func (d *dest) intercept(c reflog.Call) (proto.Message, error, bool) {
 	e := ev{Kind: "add", First: first, Served: len(req.Leaves), Digest: reqDigest(req), CallIdx: c.N}
 	if at := d.c.CancelAtAdd[pass]; at > 0 && nth == at {
 		cancel("at-add")
-		e.Status = int(codes.Canceled)
+		e.Status, e.CancelReason = int(codes.Canceled), "at-add"
 		d.rec.add(e)
 		return nil, status.Error(codes.Canceled, "context canceled"), true
 	}
@@ -166,6 +167,9 @@ func (d *dest) intercept(c reflog.Call) (proto.Message, error, bool) {
 	case k < p.Quota+p.FatalN:
 		e.Status = p.Fatal
 		d.rec.add(e)
+		if p.Fatal == fatalWrappedCancel {
+			return nil, fmt.Errorf("proxy: upstream call dropped: %w", context.Canceled), true
+		}
 		return nil, status.Error(codes.Code(p.Fatal), "scripted backend failure"), true
 	}
 	d.mu.Lock()
